@@ -66,7 +66,9 @@ Definition m_val (r : raw) : obs :=
 Definition m_save (r : raw) : obs :=
   match build r with
   | None => ONA
-  | Some i => match fi_save i with Ok j => OOk j | Err e => OInvalid e | Panic s => OOther (100 + Z.of_N s) end
+  | Some i => match fi_save i with
+              | Ok j => OOk j | Err (SInvalid e) => OInvalid e | Err SSerialize => OOther 7
+              | Panic s => OOther (100 + Z.of_N s) end
   end.
 Definition m_load (r : raw) : obs :=
   match fi_load r with
